@@ -233,9 +233,12 @@ Proof.
   apply andb_true_iff in E. destruct E as [E1 E2]. apply forallb_nonneg in E1. apply Z.eqb_eq in E2.
   pose proof (wrap_dim_ok _ _ _ Ei) as [Hi _].
   cbn [td_split]. rewrite (correct_neg_dim_wrap _ _ _ Ei). cbn [bindo].
-  destruct l as [|x r]; [congruence|]. cbn [split_list_segments]. change fixed_D4 with false. cbn [andb].
+  destruct l as [|x r]; [congruence|]. cbn [split_list_segments]. change fixed_D4 with true. cbn [andb]. cbv iota.
+  assert (Hfb : forallb (fun y => 0 <=? y) (x :: r) = true) by (apply forallb_nonneg; exact E1).
+  rewrite Hfb. cbn [negb].
   pose proof E1 as Hnn. apply nonneg_cons in Hnn. destruct Hnn as [Hx Hr].
   cbn [sumZ fold_right] in E2. fold (sumZ r) in E2.
+  rewrite Z.min_r by (pose proof (sumZ_nonneg r Hr); lia).
   rewrite split_list_loop_legal by (try assumption; lia).
   destruct (x + sumZ r <? nthZ bs i) eqn:E3; [lia|]. cbn [bindo].
   eexists. split; [reflexivity|].
@@ -299,7 +302,7 @@ Proof.
   cbn [td_split]. rewrite (correct_neg_dim_wrap _ _ _ Ei). cbn [bindo]. unfold split_int_segments.
   destruct (k <? 0) eqn:E0; [discriminate|]. destruct (k =? 0) eqn:E1.
   - destruct (nthZ bs i =? 0) eqn:E2; [|discriminate]. injection Ht as <-.
-    destruct (0 <? k) eqn:E3; [lia|]. change fixed_D4 with false. cbv iota. rewrite ?E1, ?E2. cbn [andb bindo map].
+    destruct (0 <? k) eqn:E3; [lia|]. change fixed_D4 with true. cbv iota. rewrite ?E1, ?E2. cbn [andb bindo map].
     eexists. split; [reflexivity|].
     pose proof (segs_to_trees (Node bs nm ents) bs nm ents i [0] [(0, 0)] eq_refl Hw Hi) as HS.
     cbn [map fst snd] in HS. replace (set_nth i 0 bs) with bs in HS at 1; [apply HS|].
@@ -317,28 +320,59 @@ Qed.
 Lemma py_ceil_div sz c : 0 < c -> - (sz / - c) = cdiv sz c.
 Proof. intros Hc. unfold cdiv. nia. Qed.
 
-(* chunk on a dim of positive size (a size-0 dim is C02-e) *)
-Theorem chunk_acts_on_batch_dims : forall t c d shapes i,
-  wf t -> is_node t -> wrap_dim d (List.length (top_shape t)) = Ok i -> 0 < nthZ (top_shape t) i ->
-  t_chunk (top_shape t) c d = Ok shapes ->
+Lemma set_nth_same (bs : list Z) i : (i < List.length bs)%nat -> set_nth i (nthZ bs i) bs = bs.
+Proof.
+  intros Hi. apply (list_ext_nth _ _ 0); [rewrite set_nth_length; lia|]. intros j Hj.
+  rewrite set_nth_nth_default by lia. destruct (Nat.eqb j i) eqn:E4; [|reflexivity]. apply Nat.eqb_eq in E4. subst. reflexivity.
+Qed.
+
+Lemma map_repeat' {A B} (f : A -> B) x n : map f (repeat x n) = repeat (f x) n.
+Proof. induction n as [|n IH]; cbn; [reflexivity|]. f_equal. exact IH. Qed.
+
+Lemma sumZ_repeat0 n : sumZ (repeat 0 n) = 0.
+Proof. unfold sumZ. induction n as [|n IH]; cbn; [reflexivity|]. exact IH. Qed.
+
+Lemma nonneg_repeat0 n : nonneg (repeat 0 n).
+Proof. unfold nonneg. rewrite Forall_forall. intros x Hx. apply repeat_spec in Hx. lia. Qed.
+
+(* chunk, every dim torch accepts, every number of chunks >= 1 -- a dim of size 0 included (after fixes/C02/C02-e) *)
+Theorem chunk_acts_on_batch_dims : forall t c d shapes,
+  wf t -> is_node t -> t_chunk (top_shape t) c d = Ok shapes ->
   exists ts, td_chunk t c d = Done ts /\
              Forall2 (fun s t' => top_shape t' = s /\ rel (top_shape t) s t t' /\ wf t') shapes ts.
 Proof.
-  intros t c d shapes i Hw Hn Hi Hpos Ht. destruct t as [sh|bs nm ents]; [contradiction|]. cbn [top_shape] in *.
+  intros t c d shapes Hw Hn Ht. destruct t as [sh|bs nm ents]; [contradiction|]. cbn [top_shape] in *.
   unfold t_chunk in Ht. destruct bs as [|b0 bs0] eqn:Eb; [discriminate|]. rewrite <- Eb in *.
-  rewrite Hi in Ht. cbn [bind] in Ht. destruct (c <=? 0) eqn:E0; [discriminate|].
-  destruct (nthZ bs i =? 0) eqn:E1; [lia|].
+  destruct (wrap_dim d (List.length bs)) as [i|] eqn:Hi; [|discriminate]. cbn [bind] in Ht.
+  destruct (c <=? 0) eqn:E0; [discriminate|].
   pose proof (wrap_dim_ok _ _ _ Hi) as [Hi1 Hi2].
+  assert (Hsz : 0 <= nthZ bs i) by (inversion Hw; subst; apply nonneg_nth; assumption).
   cbn [td_chunk]. destruct (c <? 1) eqn:E2; [lia|]. unfold len.
   destruct ((d <? - Z.of_nat (List.length bs)) || (Z.of_nat (List.length bs) <=? d)) eqn:E3.
   { unfold wrap_dim in Hi. rewrite E3 in Hi. discriminate. }
   assert (Hpos' : py_pos bs d = i).
   { unfold py_pos, len. destruct (d <? 0) eqn:E4; lia. }
-  rewrite Hpos', py_ceil_div by lia.
-  apply (split_int_acts_on_batch_dims (Node bs nm ents) (cdiv (nthZ bs i) c) d shapes Hw I).
-  cbn [top_shape]. unfold t_split_int. rewrite Eb. rewrite <- Eb. rewrite Hi. cbn [bind].
-  assert (Hcd : 0 < cdiv (nthZ bs i) c) by (unfold cdiv; nia).
-  destruct (cdiv (nthZ bs i) c <? 0) eqn:E5; [lia|]. destruct (cdiv (nthZ bs i) c =? 0) eqn:E6; [lia|]. exact Ht.
+  rewrite Hpos', py_ceil_div by lia. change fixed_C02e with true. cbn [andb].
+  destruct (nthZ bs i =? 0) eqn:E1.
+  - (* a dim of size 0: `chunks` empty chunks *)
+    injection Ht as <-. assert (Hz : nthZ bs i = 0) by lia.
+    assert (Hk : cdiv (nthZ bs i) c =? 0 = true) by (rewrite Hz; unfold cdiv; apply Z.eqb_eq; nia).
+    rewrite Hk.
+    assert (Hl : repeat 0 (Z.to_nat c) <> []) by (destruct (Z.to_nat c) eqn:Ec; [lia|discriminate]).
+    destruct (split_list_acts_on_batch_dims (Node bs nm ents) (repeat 0 (Z.to_nat c)) d
+                (map (fun x => set_nth i x bs) (repeat 0 (Z.to_nat c))) Hw I Hl) as [ts [Hs HF]].
+    { cbn [top_shape]. unfold t_split_list. rewrite Eb. rewrite <- Eb. rewrite Hi. cbn [bind].
+      assert (Hfb : forallb (fun x => 0 <=? x) (repeat 0 (Z.to_nat c)) = true) by (apply forallb_nonneg, nonneg_repeat0).
+      rewrite Hfb, sumZ_repeat0, Hz. reflexivity. }
+    exists ts. split; [exact Hs|]. cbn [top_shape] in HF.
+    assert (Heq : map (fun x => set_nth i x bs) (repeat 0 (Z.to_nat c)) = @repeat shape bs (Z.to_nat c)).
+    { rewrite map_repeat'. f_equal. rewrite <- Hz. apply set_nth_same. exact Hi1. }
+    rewrite <- Heq. exact HF.
+  - assert (Hcd : 0 < cdiv (nthZ bs i) c) by (unfold cdiv; nia).
+    destruct (cdiv (nthZ bs i) c =? 0) eqn:E6; [lia|].
+    apply (split_int_acts_on_batch_dims (Node bs nm ents) (cdiv (nthZ bs i) c) d shapes Hw I).
+    cbn [top_shape]. unfold t_split_int. rewrite Eb. rewrite <- Eb. rewrite Hi. cbn [bind].
+    destruct (cdiv (nthZ bs i) c <? 0) eqn:E5; [lia|]. rewrite E6. exact Ht.
 Qed.
 
 (* ------------------------------------------------------------------ masked_select with a mask of the batch shape *)
